@@ -55,11 +55,11 @@ echo "== translator correspondence: translator/testdata/tsem run natively vs. ge
 T=/tmp/ttie-selftest-sem-$$; rm -rf "$T"; mkdir -p "$T"; scratch+=("$T")
 bin/ttie --build >/dev/null || { echo "FAIL translator does not build"; exit 2; }
 if (cd translator/testdata/tsem && go run . > "$T/examples.txt") \
-   && build/go2coq -repo translator/testdata/tsem -targets translator/testdata/tsem/targets.json -out "$T" -only sem >/dev/null; then
+   && build/go2coq -repo translator/testdata/tsem -targets translator/testdata/tsem/targets.json -out "$T" -only SEM >/dev/null; then
   { cat <<'EOV'
 From Coq Require Import ZArith NArith QArith List Bool.
 From MM Require Import Base.Num Base.GoSem.
-From MMGen Require Import Gen_sem_types Gen_sem_sem.
+From MMGen Require Import Gen_sem_types Gen_sem_sem Gen_sem_fuel.
 Import ListNotations.
 Local Open Scope Q_scope.
 Fixpoint qlist_eqb (a b : list Q) : bool :=
@@ -71,7 +71,7 @@ Fixpoint qlist_eqb (a b : list Q) : bool :=
 EOV
     cat "$T/examples.txt"; } > "$T/SemTest.v"
   okc=1
-  for f in Gen_sem_types Gen_sem_sem SemTest; do
+  for f in Gen_sem_types Gen_sem_sem Gen_sem_fuel SemTest; do
     (cd "$T" && timeout 600 coqc -Q "$ROOT/coq" MM -Q . MMGen $f.v) > "$T/$f.log" 2>&1 || { okc=0; echo "FAIL translator correspondence ($f.v):"; tail -5 "$T/$f.log"; break; }
   done
   if [ $okc = 1 ]; then echo "ok   translator correspondence: $(wc -l < "$T/examples.txt") native evaluations reproduced by the generated definitions"; else fail=1; fi
@@ -178,6 +178,32 @@ mk U1; d=$D
 edit "$d/stats/stream.go" 's.replace("\treturn float64(s.Count)\n", "\tw := map[int]float64{0: float64(s.Count)}\n\treturn w[0]\n")'
 expect U1 "$d" C13 translation_failed "unsupported: type map"
 U1="$d"
+
+echo "== H6 harmless: FindLevel's down loop as a for-cond loop with the conjuncts swapped; parity of the level tested as level%2 != 0"
+mk H6; d=$D
+edit "$d/scale/ticks.go" 's.replace("\t\tfor l--; l >= minLevel && ticker.CountTicks(l) <= o.Max; l-- {\n\t\t}", "\t\tl -= 1\n\t\tfor ticker.CountTicks(l) <= o.Max && minLevel <= l {\n\t\t\tl = l - 1\n\t\t}")'
+edit "$d/scale/linear.go" 's.replace("(level%2 == 1 || level%2 == -1)", "level%2 != 0")'
+expect H6 "$d" C17 ok
+
+echo "== B8 breaking: FindLevel's down loop stops one level early (l > minLevel)"
+mk B8; d=$D
+edit "$d/scale/ticks.go" 's.replace("for l--; l >= minLevel && ticker.CountTicks(l) <= o.Max; l-- {", "for l--; l > minLevel && ticker.CountTicks(l) <= o.Max; l-- {")'
+expect B8 "$d" C17 tie_failed tie_FindLevel_fuel
+
+echo "== B9 breaking: spacingAtLevel with a slack of 1e-9 instead of 1e-10"
+mk B9; d=$D
+edit "$d/scale/linear.go" 's.replace("slack := (s.Max - s.Min) * 1e-10", "slack := (s.Max - s.Min) * 1e-9")'
+expect B9 "$d" C17 tie_failed tie_Linear_spacingAtLevel
+
+echo "== B10 breaking: Nice moves the lower bound without the outwards-only guard (defect D10 again)"
+mk B10; d=$D
+edit "$d/scale/linear.go" 's.replace("min <= s.Min && !math.IsInf(min, 0)", "!math.IsInf(min, 0)")'
+expect B10 "$d" C17 tie_failed tie_Linear_Nice
+
+echo "== U2 untranslatable: FindLevel's up loop leaves through a break"
+mk U2; d=$D
+edit "$d/scale/ticks.go" 's.replace("\t\tfor l++; l <= maxLevel && ticker.CountTicks(l) > o.Max; l++ {\n\t\t}", "\t\tfor l++; l <= maxLevel; l++ {\n\t\t\tif ticker.CountTicks(l) <= o.Max {\n\t\t\t\tbreak\n\t\t\t}\n\t\t}")'
+expect U2 "$d" C17 translation_failed "break inside a loop"
 
 if [ $FULL = 1 ]; then
   echo "== full check on B1: both ties report (correspondence finds a failing input)"
